@@ -881,7 +881,7 @@ var (
 // hstep is one recorded step of a history: node operations carry the concrete block so that the
 // same history can be replayed on a fresh node and wallet instance.
 type hstep struct {
-	Kind   string // attach | detach | announce | deliver | serve | import | importJSON | newAddress | remove | tx
+	Kind   string // attach | detach | announce | deliver | serve | import | importJSON | newAddress | remove | tx | create
 	Block  *massutil.Block
 	Msg    *wire.MsgBlock
 	Wallet string
@@ -890,6 +890,7 @@ type hstep struct {
 	Pass   string
 	JSON   string      // exported keystore (importJSON)
 	Tx     *wire.MsgTx // unconfirmed transaction handed to the wallet (tx)
+	N      int         // create: ordinal of the created wallet (the step is idempotent: at least N created wallets exist afterwards)
 }
 
 func (w *World) record(s hstep) {
